@@ -860,6 +860,29 @@ TEXT_INSERTS = [
 ]
 
 
+def mutants_multi(rng, tree, k=3):
+    """k programs with two or three independent faults each (tie only: error recovery of the
+    analyzer against the model)."""
+    cands = tree_mutations(rng, tree) + context_mutations(rng, tree)
+    out = []
+    for _ in range(k):
+        if len(cands) < 2:
+            break
+        chosen = []
+        for c in rng.sample(cands, min(len(cands), 12)):
+            if all(c[1][:len(o[1])] != o[1] and o[1][:len(c[1])] != c[1] for o in chosen):
+                chosen.append(c)
+            if len(chosen) == rng.choice([2, 3]):
+                break
+        if len(chosen) < 2:
+            continue
+        t = tree
+        for c in chosen:
+            t = t.replaced(c[1], c[2])
+        out.append((t.text(), "+".join(c[0] for c in chosen), "multi"))
+    return out
+
+
 def mutants_text(rng, src, k=6):
     """Insert one faulty statement at the head of a function body; structural faults."""
     out = []
@@ -893,16 +916,16 @@ def mutants_text(rng, src, k=6):
 # ---------------------------------------------------------------------------------------
 # hand-written cases
 # ---------------------------------------------------------------------------------------
-TEMPL_HEAD = "import { templ FooFeature } from templates;\n@Lamp\ntype LampT = { power: bool };\n"
+TEMPL_HEAD = "import { templ FooFeature } from templates;\n$Lamp = { power: bool };\n"
 
 
 def impl(caps, methods):
     with_ = f" with {{ {', '.join(caps)} }}" if caps is not None else ""
-    return TEMPL_HEAD + f"impl FooFeature{with_} for @Lamp {{\n" + "\n".join("    " + m for m in methods) + "\n}\nfn main() { }\n"
+    return TEMPL_HEAD + f"impl FooFeature{with_} for $Lamp {{\n" + "\n".join("    " + m for m in methods) + "\n}\nfn main() { }\n"
 
 
-DIM_OK = "fn dim(self: @Lamp, percent: int) -> bool { true }"
-TEMP_OK = "fn set_temp(self: @Lamp, celsius: float) { }"
+DIM_OK = "fn dim(self: $Lamp, percent: int) -> bool { true }"
+TEMP_OK = "fn set_temp(self: $Lamp, celsius: float) { }"
 
 
 def template_cases():
@@ -912,18 +935,18 @@ def template_cases():
         (impl(["temperature"], [TEMP_OK]), False, "other capability"),
         (impl(["light"], []), True, "required method missing"),
         (impl(["light"], [DIM_OK, TEMP_OK]), True, "extra method"),
-        (impl(["light"], ["fn dim(self: @Lamp, percent: str) -> bool { true }"]), True, "parameter type mismatch"),
-        (impl(["light"], ["fn dim(self: @Lamp, pct: int) -> bool { true }"]), True, "parameter name mismatch"),
-        (impl(["light"], ["fn dim(self: @Lamp) -> bool { true }"]), True, "parameter count mismatch"),
-        (impl(["light"], ["fn dim(self: @Lamp, percent: int) -> int { 1 }"]), True, "return type mismatch"),
-        (impl(["light"], ["fn dim(self: @Lamp, percent: int) { }"]), True, "return type missing"),
-        (impl(["light"], ["pub fn dim(self: @Lamp, percent: int) -> bool { true }"]), True, "redundant modifier"),
-        (impl(["light"], ["event fn dim(self: @Lamp, percent: int) -> bool { true }"]), True, "redundant modifier (event)"),
+        (impl(["light"], ["fn dim(self: $Lamp, percent: str) -> bool { true }"]), True, "parameter type mismatch"),
+        (impl(["light"], ["fn dim(self: $Lamp, pct: int) -> bool { true }"]), True, "parameter name mismatch"),
+        (impl(["light"], ["fn dim(self: $Lamp) -> bool { true }"]), True, "parameter count mismatch"),
+        (impl(["light"], ["fn dim(self: $Lamp, percent: int) -> int { 1 }"]), True, "return type mismatch"),
+        (impl(["light"], ["fn dim(self: $Lamp, percent: int) { }"]), True, "return type missing"),
+        (impl(["light"], ["pub fn dim(self: $Lamp, percent: int) -> bool { true }"]), True, "redundant modifier"),
+        (impl(["light"], ["event fn dim(self: $Lamp, percent: int) -> bool { true }"]), True, "redundant modifier (event)"),
         (impl(["light"], ["fn dim(percent: int) -> bool { true }"]), True, "singleton not extracted"),
         (impl(["light", "temperature"], [DIM_OK, TEMP_OK]), True, "conflicting capabilities"),
         (impl(["zz_nope"], []), True, "unknown capability"),
         (impl(["light"], [DIM_OK]).replace("impl FooFeature", "impl ZzNope"), True, "unknown template"),
-        (impl(["light"], [DIM_OK]).replace("for @Lamp", "for @ZzNope"), True, "unknown singleton"),
+        (impl(["light"], [DIM_OK]).replace("for $Lamp", "for $ZzNope"), True, "unknown singleton"),
     ]
 
 
@@ -970,6 +993,8 @@ def fixed_cases():
         ("A9", 'fn h() { throw("x"); }\nfn g() -> int { loop { } }\nfn main() { h(); println(g()); }\n', False,
          "loop without break is diverging regardless of earlier functions"),
         ("A9b", 'fn g() -> int { loop { } }\nfn h() { throw("x"); }\nfn main() { h(); println(g()); }\n', False, "same, other order"),
+        ("A10", "fn main() { let b = print == println; println(b); }\n", False, "comparison of two variadic functions"),
+        ("A10b", "fn main() { let f = if true { print } else { fmt }; f(\"x\"); }\n", True, "branches of different variadic function types"),
         ("main-missing", "fn f() { }\n", True, "no main"),
         ("main-ok", "fn main() { }\n", False, "empty main"),
         ("empty-match", "fn main() { let y: int = match 1 { }; println(y); }\n", True, "match without arms has no value"),
